@@ -4,6 +4,8 @@ import KrillModel.Drivers.Http
 import KrillModel.Drivers.Pubd
 import KrillModel.Drivers.AggStore
 import KrillModel.Drivers.Pure
+import KrillModel.Drivers.SysObjects
+import KrillModel.Drivers.SysKeys
 
 def main (args : List String) : IO UInt32 := do
   match args with
@@ -13,5 +15,9 @@ def main (args : List String) : IO UInt32 := do
   | ["pubd"] => KM.Drv.Pubd.main ""; return 0
   | ["pubd", prop] => KM.Drv.Pubd.main prop; return 0
   | ["aggstore"] => KM.Drv.AggStore.main; return 0
+  | ["aggstore", prop] => KM.Drv.AggStore.main prop; return 0
   | ["pure"] => KM.Drv.Pure.main; return 0
+  | ["sysobjects"] => KM.Drv.SysObjects.main; return 0
+  | ["sysobjects", "tolerant"] => KM.Drv.SysObjects.main true; return 0
+  | ["syskeys"] => KM.Drv.SysKeys.main; return 0
   | _ => IO.eprintln "usage: kmodel <stream>"; return 2
